@@ -37,6 +37,7 @@ type task struct {
 	Param  int    `json:"param"`  // index into exoticParams (kind param)
 	NoRun  bool   `json:"norun"`  // compile only
 	Origin string `json:"origin"` // generator that produced it
+	Twice  bool   `json:"twice"`  // compile and run twice in the same process; the second outcome is reported
 	Coq    string `json:"-"`      // program in model syntax, when there is one
 }
 
@@ -62,60 +63,67 @@ func worker() {
 			continue
 		}
 		r := result{ID: t.ID}
-		func() {
-			defer func() {
-				if rec := recover(); rec != nil {
-					r.Class = "compile-panic"
-					r.Err = fmt.Sprint(rec)
-				}
-			}()
-			prog, err := c.Compile(t.Query)
-			if (prog == nil) == (err == nil) {
-				r.Class = "compile-neither"
-				return
-			}
-			if err != nil {
-				r.Class = "compile-error"
-				r.Err = err.Error()
-				return
-			}
-			r.Compiled = true
-			if t.NoRun {
-				r.Class = "ok"
-				r.JSONOK = true
-				return
-			}
-			ctx, cancel := context.WithTimeout(context.Background(), 3*time.Second)
-			defer cancel()
-			ctx = drivers.WithContext(ctx, httpdrv.NewDriver(), drivers.AsDefault())
+		reps := 1
+		if t.Twice {
+			reps = 2
+		}
+		for rep := 0; rep < reps; rep++ {
+			r = result{ID: t.ID}
 			func() {
 				defer func() {
 					if rec := recover(); rec != nil {
-						r.Class = "panic-escaped"
+						r.Class = "compile-panic"
 						r.Err = fmt.Sprint(rec)
 					}
 				}()
-				opts := []runtime.Option{runtime.WithLog(io.Discard)}
-				if t.Kind == "param" {
-					opts = append(opts, runtime.WithParam("p", exoticParams()[t.Param].v))
-				} else {
-					for k, v := range params {
-						opts = append(opts, runtime.WithParam(k, v))
-					}
+				prog, err := c.Compile(t.Query)
+				if (prog == nil) == (err == nil) {
+					r.Class = "compile-neither"
+					return
 				}
-				b, err := prog.Run(fqlrun.WithSession(ctx, &fqlrun.Session{CancelAt: -1, FailAt: -1}), opts...)
-				switch {
-				case err != nil:
-					r.Class = "error"
+				if err != nil {
+					r.Class = "compile-error"
 					r.Err = err.Error()
-				case len(b) == 0:
-					r.Class = "nil-nil"
-				default:
-					r.Class = "ok"
-					r.JSONOK = json.Valid(b)
+					return
 				}
+				r.Compiled = true
+				if t.NoRun {
+					r.Class = "ok"
+					r.JSONOK = true
+					return
+				}
+				ctx, cancel := context.WithTimeout(context.Background(), 3*time.Second)
+				defer cancel()
+				ctx = drivers.WithContext(ctx, httpdrv.NewDriver(), drivers.AsDefault())
+				func() {
+					defer func() {
+						if rec := recover(); rec != nil {
+							r.Class = "panic-escaped"
+							r.Err = fmt.Sprint(rec)
+						}
+					}()
+					opts := []runtime.Option{runtime.WithLog(io.Discard)}
+					if t.Kind == "param" {
+						opts = append(opts, runtime.WithParam("p", exoticParams()[t.Param].v))
+					} else {
+						for k, v := range params {
+							opts = append(opts, runtime.WithParam(k, v))
+						}
+					}
+					b, err := prog.Run(fqlrun.WithSession(ctx, &fqlrun.Session{CancelAt: -1, FailAt: -1}), opts...)
+					switch {
+					case err != nil:
+						r.Class = "error"
+						r.Err = err.Error()
+					case len(b) == 0:
+						r.Class = "nil-nil"
+					default:
+						r.Class = "ok"
+						r.JSONOK = json.Valid(b)
+					}
+				}()
 			}()
-		}()
+		}
 		if len(r.Err) > 300 {
 			r.Err = r.Err[:300]
 		}
@@ -346,6 +354,24 @@ func main() {
 				args[j] = argPool[rng.Intn(len(argPool))]
 			}
 			add(task{Kind: "query", Query: "RETURN " + fn + "(" + strings.Join(args, ", ") + ")", Origin: "fn-arity"})
+		}
+	}
+	// e2. a fault must not leave the library in a state that wedges or crashes the next call:
+	// every function with hostile arguments, twice in the same process
+	hostile := []string{"-1", "9223372036854775807", "NONE", "\"\"", "[]", "-1.5"}
+	for _, fn := range names {
+		up := strings.ToUpper(fn)
+		if strings.HasPrefix(up, "IO::") || up == "DOCUMENT" || up == "DOWNLOAD" || up == "PDF" || up == "SCREENSHOT" || up == "WAIT" || strings.HasPrefix(up, "WAIT_") || up == "PRINT" || up == "PAGINATION" {
+			continue
+		}
+		for _, a := range hostile {
+			for n := 1; n <= 2+scale/12; n++ {
+				args := make([]string, n)
+				for j := range args {
+					args[j] = a
+				}
+				add(task{Kind: "query", Query: "RETURN " + fn + "(" + strings.Join(args, ", ") + ")", Origin: "fn-fault-then-reuse", Twice: true})
+			}
 		}
 	}
 	m.Extra["functions_exercised"] = nfn
